@@ -13,8 +13,10 @@ import subprocess
 import sys
 
 pid, X, checks = sys.argv[1], sys.argv[2], sys.argv[3:]
-src = f"/tmp/mut/{pid}"
-sid = f"{pid}-{X}"
+base = os.environ.get('MUT_DIR', '/tmp/mut')
+src = f"{base}/{pid}"
+# round 2 deliveries (A, B in /tmp/mut2) are stored as C, D
+sid = f"{pid}-{X}" if base.rstrip('/').endswith('mut') else f"{pid}-{ {'A': 'C', 'B': 'D'}[X] }"
 dst = f"/verif/seeded/{sid}"
 os.makedirs(dst, exist_ok=True)
 shutil.copy(f"{src}/patch_{X}.diff", f"{dst}/patch.diff")
@@ -46,7 +48,7 @@ meta = {
         'demo_exit_on_pristine_tree': int(m1.group(1)) if m1 else None,
         'demo_exit_with_patch': int(m2.group(1)) if m2 else None,
         'suite_with_patch': suite,
-        'how': f"tools/verify_mutant.sh {pid} {X} (scratch worktree /tmp/mut/{pid}); tools/confirm_suite.sh {pid} {X} "
+        'how': f"tools/verify_mutant.sh {pid} {X} (scratch worktree {base}/{pid}); tools/confirm_suite.sh {pid} {X} "
                f"(unedited 475-test suite on a scratch copy of /repo HEAD + patch); checks run with the patch applied "
                f"to /repo (git apply) and undone afterwards (git checkout -- .)",
     },
